@@ -60,7 +60,7 @@ def check(tier, replay_path=None):
     rnd = random.Random(seed)
     if replay_path:
         obj = common.read_json(replay_path)
-        groups = [(obj['n'], [{'cls': obj['cls'], 'acts': obj['acts']}])]
+        groups = [(obj['n'], [{'cls': obj['cls'], 'acts': obj['acts'], 'plain': bool(obj.get('plain'))}])]
         mc = None
     else:
         n, maxarg = (3, 3)
@@ -72,7 +72,7 @@ def check(tier, replay_path=None):
         os.remove(dot)
         budget = 30000 if tier == 'quick' else 400000     # (of about a million transitions)
         ts, covered, total = tours.tours(g, maxlen=40, budget=budget, seed=seed)
-        runs = [{'cls': ('OrderedSet', 'QuerySet')[i % 2], 'acts': [to_act(l) for l in tr]}
+        runs = [{'cls': ('OrderedSet', 'QuerySet')[i % 2], 'plain': i % 3 == 2, 'acts': [to_act(l) for l in tr]}
                 for i, tr in enumerate(ts)]
         groups = [(n, runs)]
         # random behaviours of a larger instance chosen by TLC's simulator
@@ -81,12 +81,12 @@ def check(tier, replay_path=None):
             f.write(cfg(n2, 3))
         beh = sim.simulate(d, 'MC_OrderedSet', 'sim.cfg', num=200 if tier == 'quick' else 3000,
                            depth=60, seed=seed + 1)
-        runs2 = [{'cls': ('QuerySet', 'OrderedSet')[i % 2], 'acts': [to_act(l) for l in b]}
+        runs2 = [{'cls': ('QuerySet', 'OrderedSet')[i % 2], 'plain': i % 3 == 1, 'acts': [to_act(l) for l in b]}
                  for i, b in enumerate(beh)]
         # long random call sequences over a larger universe (the driver only chooses calls)
         n3 = 6
         rr = random_runs(rnd, n3, 40 if tier == 'quick' else 600, 300)
-        runs3 = [{'cls': ('QuerySet', 'OrderedSet')[i % 2], 'acts': a} for i, a in enumerate(rr)]
+        runs3 = [{'cls': ('QuerySet', 'OrderedSet')[i % 2], 'plain': i % 3 == 0, 'acts': a} for i, a in enumerate(rr)]
         groups += [(n2, runs2), (n3, runs3)]
     steps = 0
     accepted = 0
@@ -116,7 +116,7 @@ def check(tier, replay_path=None):
             else:
                 e = v.event()
                 sig = {'op': e['op'], 'clause': v.clause, 'cls': r['cls']}
-                rep.failure(sig, {'n': n, 'cls': r['cls'], 'acts': r['acts'][:v.step],
+                rep.failure(sig, {'n': n, 'cls': r['cls'], 'plain': bool(r.get('plain')), 'acts': r['acts'][:v.step],
                                   'step': v.step, 'clause': v.clause, 'event': e,
                                   'spec_expected': repr(v.expected)})
     rc = rep.finish()
@@ -143,7 +143,8 @@ def check(tier, replay_path=None):
     evidence.write(PID, tier, 'model_checking', cov, t.s(), rep.n, [
         'TLC explores the specification exhaustively only for a universe of three elements; larger universes '
         '(5, 6 elements) are covered by simulated and random call sequences, each validated step by step',
-        'elements are hashable objects compared by identity, like xtuml instances',
+        'elements are hashable objects compared by identity, like xtuml instances; in every third behaviour plain values '
+        '(0, the empty string, the empty tuple, a string, numbers)',
         'the iteration order of the result of a pure operator (| & - ^) and the position of elements that enter '
         'through ^= are not constrained by the property; the trace specification accepts any order for them',
     ])
